@@ -16,7 +16,7 @@ LEVEL = "exploration"
 DECIDING = ["C12.transition_matrix"]
 RULE = ("every trajectory over the alphabet {0,1,2,NaN} of length 0..Lmax (quick Lmax=5, thorough Lmax=7), every lag "
         "tau in 1..L+1, both window modes (half of the trajectories through ONE live MSM object asked repeatedly), total_num_cells=4 (cell 3 never visited), plus seeded random long "
-        "trajectories (L<=2000, up to 3e6 cells incl. the high end of the index range, NaN runs, tau given as int/float/str) one trajectory of 1.0-1.3e5 frames per run and one beyond 1e6 frames (thorough 2.3e6, lags 3..13 that do not divide round block sizes); cell counts at powers of two and their neighbours (16..65537) with the last cell visited; trajectories stored as float64/float32/float16/int64/int32/int16/uint8/uint16/uint32 arrays, views and lists; a case is the triple "
+        "trajectories (L<=2000, up to 3e6 cells incl. the high end of the index range, NaN runs, tau given as int/float/str) one trajectory of 1.0-1.3e5 frames per run and one beyond 1e6 frames (thorough 2.3e6, 4.2e6 and 1.05e7, lags 3..13 that do not divide round block sizes); cell counts at powers of two and their neighbours (16..65537) with the last cell visited; trajectories stored as float64/float32/float16/int64/int32/int16/uint8/uint16/uint32 arrays, views and lists; a case is the triple "
         "(trajectory, tau, mode); non-trivial = at least one counted window and >=2 distinct visited cells; "
         "distinct by digest of the triple")
 ASSUMPTIONS = ["cell indices in the trajectory are < total_num_cells (larger ones are outside the property)",
@@ -281,6 +281,9 @@ def shards(tier, seed):
     else:
         out += [{"kind": "million", "rseed": seed * 1000 + 800 + i, "L": 2300000, "runs": runs}
                 for i, runs in enumerate(([[7, True], [3, True]], [[11, True], [13, True]], [[9, False]]))]
+        # production trajectories reach 1e7 frames: block sizes of 2^22 or 4e6 frames are passed only there
+        out += [{"kind": "million", "rseed": seed * 1000 + 810, "L": 4200000, "runs": [[7, True], [33, True]]},
+                {"kind": "million", "rseed": seed * 1000 + 811, "L": 10500000, "runs": [[11, True]]}]
     return out
 
 
